@@ -101,6 +101,8 @@ val fold_left : ('a1 -> 'a2 -> 'a1) -> 'a2 list -> 'a1 -> 'a1
 
 val fold_right : ('a2 -> 'a1 -> 'a1) -> 'a1 -> 'a2 list -> 'a1
 
+val existsb : ('a1 -> bool) -> 'a1 list -> bool
+
 val forallb : ('a1 -> bool) -> 'a1 list -> bool
 
 val filter : ('a1 -> bool) -> 'a1 list -> 'a1 list
@@ -448,6 +450,10 @@ val part_emissions :
   'a1 numops -> int -> 'a1 tols -> 'a1 part_in -> 'a1 emission list outcome
 
 val sep_pair : 'a1 numops -> 'a1 -> 'a1 -> 'a1 -> bool
+
+val same_val : 'a1 numops -> 'a1 -> 'a1 -> bool
+
+val dedup_vals : 'a1 numops -> 'a1 list -> 'a1 list
 
 val separated_b : 'a1 numops -> 'a1 -> 'a1 list -> bool
 
